@@ -3,3 +3,4 @@ CONSTANTS
   ParenFix = TRUE
   Rich = FALSE
   MaxLen = 2
+  RegexMatch <- SmallRegexMatch
